@@ -82,6 +82,15 @@ func FlagsWord(v *Value, field string) uint32 {
 	return f
 }
 
+// SerializeAs writes a value of the given type expression (boxed objects, vectors, Bool, ...).
+func SerializeAs(v *Value, t *TypeExpr) ([]byte, error) {
+	var w bytes.Buffer
+	if err := putValue(&w, v, t); err != nil {
+		return nil, err
+	}
+	return w.Bytes(), nil
+}
+
 // Serialize writes a constructor value boxed (with its id).
 func Serialize(v *Value) ([]byte, error) {
 	var w bytes.Buffer
